@@ -206,8 +206,9 @@ class ModelTrainer:
         ):  # save cfg if there are no distributed process or the rank = 0
             OmegaConf.save(config=self.config, f=f"{self.dir_path}/initial_config.yaml")
 
-        # set seed
-        torch.manual_seed(self.seed)
+        # set seed (`None`, the schema default: leave the generator as it is)
+        if self.seed is not None:
+            torch.manual_seed(self.seed)
 
         self.max_stride = self.config.model_config.backbone_config[
             f"{self.backbone_type}"
